@@ -183,6 +183,20 @@ type QEv struct {
 	Msg    string `json:"msg"`
 }
 
+// OverlapEv: a query that OVERLAPS transitions of the machine (in-memory
+// backend).  Records are identified by their machine time sums; Lo..Hi bound
+// the number of records created when the query took its snapshot.
+type OverlapEv struct {
+	Ev     string   `json:"ev"`
+	Mode   string   `json:"mode"` // match: the matcher itself mutates the machine; find: FindLatest vs a mutating goroutine
+	Lo     int      `json:"lo"`
+	Hi     int      `json:"hi"`
+	Seen1  []uint64 `json:"seen1"` // match: the log handed to the matcher, oldest first, on entry
+	Seen2  []uint64 `json:"seen2"` // ... and after the transitions the matcher made
+	Res    []uint64 `json:"res"`   // find: FindLatest(empty query, no limit), as returned
+	Status string   `json:"status"`
+}
+
 type ImportEv struct {
 	Ev  string   `json:"ev"`
 	Tb  []uint64 `json:"tb"`
@@ -427,6 +441,11 @@ func Run(c *Case, backend string, o Opts) (evs []any) {
 		r.query(i+1, q)
 	}
 
+	// queries overlapping transitions (rotation under a running query)
+	if backend == "memory" {
+		r.overlap()
+	}
+
 	// export / import
 	r.importEv(mk)
 	r.emit(EndEv{Ev: "end", Ambig: r.ambig})
@@ -611,6 +630,120 @@ func (r *run) query(qi int, q QueryJ) {
 		}
 	}()
 	r.emit(ev)
+}
+
+// made = records created by this memory so far
+func (r *run) made() int { return int(r.b.Mem().MachineRecord().NextId) - r.id0 }
+
+func sums(db []*amhist.MemoryRecord) []uint64 {
+	out := []uint64{}
+	for _, x := range db {
+		if x == nil || x.Time == nil {
+			out = append(out, 0)
+			continue
+		}
+		out = append(out, x.Time.MTimeSum)
+	}
+	return out
+}
+
+// overlap runs queries while the machine keeps on executing tracked
+// transitions: (1) a Match whose matcher toggles a state (deterministic: the
+// transitions happen between the snapshot and the end of the query), (2)
+// FindLatest against a goroutine that toggles.  All tx events are emitted by
+// the mutating goroutine; the query events are emitted afterwards.
+func (r *run) overlap() {
+	mem, ok := r.b.Mem().(*amhist.Memory)
+	if !ok || r.panicked {
+		return
+	}
+	names, _ := Schema(r.c.Schema)
+	st := names[len(names)-1]
+	r.mi = len(r.c.Muts) + 1
+	toggle := func() {
+		if r.mach.Is1(st) {
+			r.mach.Remove1(st, nil)
+		} else {
+			r.mach.Add1(st, nil)
+		}
+	}
+	ctx := context.Background()
+	n := 2*r.c.Cfg.Max + 2
+
+	// (1)
+	for rep := 0; rep < 2; rep++ {
+		ev := OverlapEv{Ev: "qo", Mode: "match", Status: "ok", Lo: r.made(), Res: []uint64{}}
+		func() {
+			defer func() {
+				if p := recover(); p != nil {
+					ev.Status = "panic"
+				}
+			}()
+			_, err := mem.Match(ctx, func(now *am.TimeIndex, db []*amhist.MemoryRecord) []*amhist.MemoryRecord {
+				ev.Seen1 = sums(db)
+				for i := 0; i < n; i++ {
+					toggle()
+				}
+				ev.Seen2 = sums(db)
+				return nil
+			})
+			if err != nil {
+				ev.Status = "err"
+			}
+		}()
+		// the snapshot is taken before the matcher runs
+		ev.Hi = ev.Lo
+		if ev.Seen1 == nil {
+			ev.Seen1, ev.Seen2 = []uint64{}, []uint64{}
+		}
+		r.emit(ev)
+	}
+
+	// (2)
+	var evs []OverlapEv
+	stop := make(chan struct{})
+	done := make(chan struct{})
+	go func() {
+		defer close(done)
+		for i := 0; i < 40; i++ {
+			toggle()
+		}
+		close(stop)
+	}()
+	for len(evs) < 200 {
+		select {
+		case <-stop:
+		default:
+			ev := OverlapEv{Ev: "qo", Mode: "find", Status: "ok", Lo: r.made(), Seen1: []uint64{},
+				Seen2: []uint64{}, Res: []uint64{}}
+			func() {
+				defer func() {
+					if p := recover(); p != nil {
+						ev.Status = "panic"
+					}
+				}()
+				res, err := mem.FindLatest(ctx, false, 0, amhist.Query{})
+				if err != nil {
+					ev.Status = "err"
+					return
+				}
+				ev.Res = sums(res)
+			}()
+			// NextId is advanced by the history tracer inside the transition:
+			// one more record may be in flight
+			ev.Hi = r.made() + 1
+			evs = append(evs, ev)
+			continue
+		}
+		break
+	}
+	<-done
+	for _, ev := range evs {
+		if ev.Hi > r.made() {
+			ev.Hi = r.made()
+		}
+		r.emit(ev)
+	}
 }
 
 func (r *run) importEv(mk func() *am.Machine) {
